@@ -15,7 +15,9 @@ CONSTANTS
   MaxChanges = 5
   MaxUpdates = 2
   MaxCalls = 2
+  NPages = 1
   ModernUnsub = FALSE
+  ForeignUnsub = TRUE
   Stepwise = TRUE
   Gates = TRUE
   GateNames = {"inv", "usr", "put"}
